@@ -25,6 +25,8 @@ TickFaults == {"lose", "corrupt"}
 LoseOnly == {"lose"}
 MCRoutesTick == {<<<<"R", "R">>, <<"B", "B">>>>}
 
+ObsFunds == [n \in MCNodes |-> 1]   \* MCRetrievalObs.cfg
+
 CallDone(k) == k \in CallIds /\ calls[k].pc = "done"
 Terminates == \A k \in 1..8 : (k \in CallIds) ~> CallDone(k)
 ============================================================================
